@@ -155,7 +155,15 @@ static int judge(F f, C z, C lib, double &ratio, C &want)
     if (!finc(want)) { return 2; }
     Q aw = cabsq(want);
     if (aw > (Q)RMAX / 4) { return 2; }                    // the true result is not representable
-    if (aw < (Q)RMIN * 4 && cabsq(z) != 0) { return 2; }  // the true result underflows (or an intermediate of the reference overflowed to give an exact 0)
+    if (aw < (Q)RMIN * 4 && cabsq(z) != 0)
+    {
+        // the true result underflows: its relative accuracy means nothing, but the answer is still "practically zero" - a finite number of
+        // the size of the smallest normal one at most.  (aw == 0 exactly: an intermediate of the reference may have overflowed: excluded)
+        if (aw == 0) { return 2; }
+        if (!finc(lib) || cabsq(lib) > (Q)RMIN * 64) { ratio = 1e300; return 1; }
+        ratio = 0;
+        return 0;
+    }
     Q s1, s2;
     if (!spread_of(f, z, 4 * (Q)EPS, s1) || !spread_of(f, z, (Q)EPS / 4, s2)) { return 2; }
     // a smooth function changes 16 times less under a 16 times smaller perturbation; a jump does not
